@@ -107,6 +107,8 @@ func installHook() {
 				e.Dig = digestOf(kvGet(kv, "body"))
 			}
 			r.add(e)
+		case "expire.run":
+			noteExpireRun(s, u32(kvGet(kv, "tok")))
 		case "chunk.write":
 			if !r.isSend {
 				return
